@@ -39,6 +39,8 @@ type FuncContract struct {
 	ModifiesNothing bool
 	ModifiesAll bool
 	PanicsIf []*Clause
+	Preserves []*Clause // with `modifies *`: locations proved untouched by a call-graph scan
+	Records  []*Clause // ghost assignments performed at return: records G := expr
 	Loops    map[int]*LoopSpec
 	Tags     []string
 	Pure     bool
@@ -107,7 +109,7 @@ func newContracts() *Contracts {
 var declKeywords = map[string]bool{"func": true, "iface": true, "fnfield": true, "pred": true, "spec": true, "axiom": true,
 	"lemma": true, "ghost": true, "generate": true, "trusted": true}
 var clauseKeywords = map[string]bool{"requires": true, "ensures": true, "modifies": true, "panics_if": true, "loop": true,
-	"tag": true, "pure": true, "fresh": true, "reads": true, "option": true, "nosafety": true}
+	"tag": true, "pure": true, "records": true, "preserves": true, "fresh": true, "reads": true, "option": true, "nosafety": true}
 
 type rawLine struct {
 	text string
@@ -226,6 +228,34 @@ func (cs *Contracts) loadContractFile(path, pkgPath string) error {
 			case "panics_if":
 				cur.PanicsIf = append(cur.PanicsIf, cl)
 			}
+		case "preserves":
+			if cur == nil {
+				return fail("clause outside a func declaration")
+			}
+			cl := &Clause{Kind: "preserves", File: l.file, Line: l.line}
+			for strings.HasPrefix(rest, "@") {
+				w := firstWord(rest)
+				cl.Tags = append(cl.Tags, w[1:])
+				rest = strings.TrimSpace(rest[len(w):])
+			}
+			cl.Src = rest
+			for _, p := range splitTop(rest, ',') {
+				cl.Locs = append(cl.Locs, strings.TrimSpace(p))
+			}
+			cur.Preserves = append(cur.Preserves, cl)
+		case "records":
+			if cur == nil {
+				return fail("clause outside a func declaration")
+			}
+			k := strings.Index(rest, ":=")
+			if k < 0 {
+				return fail("expected: records ghost := expr")
+			}
+			e, err := parseExpr(strings.TrimSpace(rest[k+2:]))
+			if err != nil {
+				return fail("%v", err)
+			}
+			cur.Records = append(cur.Records, &Clause{Kind: "records", Name: strings.TrimSpace(rest[:k]), Src: rest, E: e, File: l.file, Line: l.line})
 		case "modifies":
 			if cur == nil {
 				return fail("clause outside a func declaration")
